@@ -33,6 +33,16 @@ FUN = {
     4: dict(expr='x_exit', call='x_exit()', shape=('Raiser', None)),
     5: dict(expr='x_kbd', call='x_kbd()', shape=('Raiser', None)),
     6: dict(expr='x_err', call='x_err()', shape=('Raiser', None)),
+    # body on the header line: a one-line def and a lambda (cell), the same in a module
+    7: dict(expr='sq', call='sq(%d)', shape=('OneLine', None)),
+    8: dict(expr='lam', call='lam(%d)', shape=('OneLine', None)),
+    13: dict(expr='c20m_a.one', call='c20m_a.one(%d)', shape=('OneLine', None)),
+    14: dict(expr='c20m_a.lam2', call='c20m_a.lam2(%d)', shape=('OneLine', None)),
+    # value-equal twins: two vendored copies of one file (same name, line, body; different co_filename),
+    # both bound in module c20m_w.  Only ever named through -m c20m_w and only called when it is named:
+    # an UNNAMED byte-identical twin at the same lines is C04's known finding, not C20's business.
+    40: dict(expr='c20m_w.norm_a', call='c20m_w.norm_a(%d)', shape=('Loop', 11)),
+    41: dict(expr='c20m_w.norm_b', call='c20m_w.norm_b(%d)', shape=('Loop', 11)),
     10: dict(expr='c20m_a.a0', call='c20m_a.a0(%d)', shape=('Loop', 3)),
     11: dict(expr='c20m_a.a1', call='c20m_a.a1(%d)', shape=('Loop', 4)),
     12: dict(expr='c20m_a.KA.am', call='c20m_a.KA().am(%d)', shape=('Loop', 5)),
@@ -46,8 +56,10 @@ FUN = {
     33: dict(expr='c20pkg.sub.KS.pm', call='c20pkg.sub.KS().pm(%d)', shape=('Loop', 10)),
 }
 # what add_module registers for each name -m can take; a dotted name means the sub-module, not its parent package
-MODS = {'c20m_a': [10, 11, 12], 'c20m_b': [20, 21, 22], 'c20pkg': [30, 31], 'c20pkg.sub': [32, 33]}
-CALLABLE = [0, 1, 2, 3, 10, 11, 12, 20, 21, 22, 30, 31, 32, 33]
+MODS = {'c20m_a': [10, 11, 12, 13, 14], 'c20m_b': [20, 21, 22], 'c20pkg': [30, 31], 'c20pkg.sub': [32, 33],
+        'c20m_w': [40, 41]}
+CALLABLE = [0, 1, 2, 3, 7, 8, 10, 11, 12, 13, 14, 20, 21, 22, 30, 31, 32, 33]
+TWINS = [40, 41]
 RAISER = {'SysExit': 4, 'KbdInt': 5, 'ExcOther': 6}
 UNITS = ['1e-3', '1e-6', '1', '2.5e-07', '1e-9']
 _counter = [0]
@@ -59,7 +71,7 @@ def expected_hits(shape, ns):
         return [c, sum(n + 1 for n in ns), sum(ns)] + [c] * shape[1] + [c]
     if shape[0] == 'Wrap':
         return [c, c]
-    return [c]
+    return [c]          # Raiser, OneLine
 
 
 def flatten(top):
@@ -137,6 +149,10 @@ def rand_inv(rnd):
     for fid in f:
         if fid in CALLABLE and rnd.random() < 0.6:
             top.insert(rnd.randint(0, len(top)), (fid, rnd.choice([0, 1, 2, 4])))
+    if 'c20m_w' in m:   # both twins run, different numbers of times
+        for fid, k in ((40, rnd.randint(1, 2)), (41, rnd.randint(1, 3))):
+            for _ in range(k):
+                top.insert(rnd.randint(0, len(top)), (fid, rnd.choice([0, 1, 3])))
     outcome = rnd.choice(['Return'] * 5 + ['SysExit', 'SysExit', 'KbdInt', 'KbdInt', 'ExcOther', 'ExcOther'])
     u = rnd.choice([None, None, None] + UNITS + (['abc'] if rnd.random() < 0.25 else []))
     return mk_inv(f=f, m=m, u=u, r=rnd.random() < 0.6, s=rnd.random() < 0.4, D=rnd.random() < 0.4, T=rnd.random() < 0.4,
@@ -158,6 +174,12 @@ def gen_cases(tier, rnd):
         # dotted module names: the sub-module, the package, both; the statement calls functions of both
         for m in (['c20pkg.sub'], ['c20pkg'], ['c20pkg.sub', 'c20pkg'], ['c20m_a', 'c20pkg.sub']):
             cases.append(dict(pre_profile=pre, invs=[mk_inv(m=m, r=True, T=True, top=[(32, 3), (33, 2), (31, 2), (30, 1), (10, 1)])]))
+        # one-line defs and lambdas among the -f functions; value-equal twins through -m
+        cases.append(dict(pre_profile=pre, invs=[mk_inv(f=[7, 8, 0], r=True, D=True, T=True, top=[(7, 3), (8, 2), (7, 1), (0, 2), (13, 1)]),
+                                                 mk_inv(f=[8], top=[(8, 4), (14, 1)], outcome='SysExit')]))
+        cases.append(dict(pre_profile=pre, invs=[mk_inv(f=[14], m=['c20m_a'], r=True, top=[(13, 2), (14, 3), (10, 1)])]))
+        cases.append(dict(pre_profile=pre, invs=[mk_inv(m=['c20m_w'], r=True, D=True, top=[(40, 2), (41, 1), (41, 3), (41, 0), (0, 1)]),
+                                                 mk_inv(m=['c20m_w', 'c20m_b'], r=True, top=[(41, 2), (40, 1), (20, 1)])]))
         # errors before anything is touched, then a good one
         cases.append(dict(pre_profile=pre, invs=[mk_inv(f=[0], bad_f=True), mk_inv(f=[0], bad_m=True), mk_inv(f=[0], u='abc'),
                                                  mk_inv(f=[0], r=True)]))
